@@ -459,10 +459,10 @@ class KaniSession:
 
     def run_one(self, h, extra_kani=None):
         res = KaniResult(h)
-        # concrete playback is requested up front: on a failure Kani prints the counterexample as a
-        # unit test, so the replay step does not have to re-run the verification
-        cmd = (self.base_cmd() + self.sel(h) + ["-Z", "concrete-playback", "--concrete-playback=print"]
-               + h.extra + (extra_kani or []) + self.unwindset_args(h))
+        # (concrete playback is NOT requested up front: Kani then runs CBMC with --trace and without
+        # --slice-formula, which doubled the memory of the C12 arms; a failed harness is re-run with
+        # playback in the replay step)
+        cmd = self.base_cmd() + self.sel(h) + h.extra + (extra_kani or []) + self.unwindset_args(h)
         logfile = os.path.join(self.w.root, "log-%s.txt" % h.name)
         rc, out, dt = run_cmd(cmd, self.cwd, h.timeout, mem_gb=h.mem_gb, logfile=logfile)
         res.wall_s = dt
@@ -495,7 +495,9 @@ class KaniSession:
         test under /verif/replays/<id>/ and execute it natively (dev profile) against
         the snapshot. Returns True iff the counterexample reproduces natively."""
         h = res.h
-        out = res.log
+        cmd = (self.base_cmd() + self.sel(h) + ["-Z", "concrete-playback", "--concrete-playback=print"]
+               + h.extra + self.unwindset_args(h))
+        rc, out, dt = run_cmd(cmd, self.cwd, h.timeout * 2, mem_gb=max(h.mem_gb, 24))
         blocks = re.findall(r"```\n(.*?)```", out, re.S)
         blocks = [b for b in blocks if "#[test]" in b and "Check for `cover`" not in b]
         rdir = os.path.join(VERIF, "replays", prop_id)
